@@ -415,3 +415,18 @@ func vhC07(maxFields, nTypes, maxRules int) {
 
 func vh_C07_models_Q() { vhC07(2, 6, 0) }
 func vh_C07_models_T() { vhC07(2, 11, 1) }
+
+// C14: a struct tag is free text (`go vet` is the only thing that complains about a malformed one): whatever it
+// holds - a missing closing quote, an empty value, stray quotes - both model emitters end without a crash
+func vh_C14_field_tag_Q() {
+	pre := []string{"", `json:"`, `validate:"`, `json:"a" validate:"`, `x:"`, `json:`}[symxChoice("pre", 6)]
+	suf := []string{"", `"`, `" `, `" validate:"required`, `" json:"`}[symxChoice("suf", 5)]
+	tag := pre + symxString("body", 0, 3, `a",=`) + suf
+	models := &definitions.Models{Structs: []definitions.StructMetadata{
+		{Name: "M", Fields: []definitions.FieldMetadata{{Name: "F", Type: []string{"string", "int", "[]string"}[symxChoice("type", 3)], Tag: tag}}}}}
+	doc30, doc31 := vhNewDoc30(), vhNewDoc31()
+	err30 := swagen30.GenerateModelsSpec(doc30, models)
+	err31 := swagen31.GenerateModelsSpec(doc31, models)
+	symxCover("C14.field-tag.ended")
+	symxAssert((err30 == nil) == (err31 == nil), "C14.field-tag.both-emitters-agree-on-acceptance")
+}
